@@ -489,7 +489,8 @@ static void one_run(const char *line)
         depth = 0;
         if (getint(line, "reseed", 0) && getint(line, "seed", -1) >= 0) nlopt_srand((unsigned long) getint(line, "seed", 0));
         getters("pre", target);
-        if (getint(line, "nullx", 0)) ret = nlopt_optimize(target, NULL, &optf);
+        if (getint(line, "nullopt", 0)) ret = nlopt_optimize(NULL, x, &optf);
+        else if (getint(line, "nullx", 0)) ret = nlopt_optimize(target, NULL, &optf);
         else if (getint(line, "nullf", 0)) ret = nlopt_optimize(target, x, NULL);
         else ret = nlopt_optimize(target, x, &optf);
         fprintf(out, "R ret=%d optf=", (int) ret); phex(out, optf);
